@@ -10,7 +10,7 @@
 From Coq Require Import List NArith ZArith Lia Bool Arith.
 From Coq Require Import Init.Byte.
 From FFS Require Import Base.Res Base.Bytes Rlp.Model Rlp.Spec Rlp.Proofs.
-From FFS Require Import Tx.Model Tx.Spec Tx.Norm Tx.SignProofs.
+From FFS Require Import Tx.Model Tx.Spec Tx.Norm Tx.SignProofs Tx.RecoverModel Tx.SignProofs2.
 Import ListNotations.
 
 (* 1. Wire format.  In every mode, for every transaction, every chain id >= 0 and every signer: the
@@ -66,6 +66,68 @@ Proof.
 Qed.
 Print Assumptions C01_pure.
 
+(* 4. Sign, then recover.  The bytes any mode returns, given to the model of RecoverRawTransaction
+      (Tx/RecoverModel.v, the code after the recovery-side fix: commits) with the same chain id, are
+      accepted; the transaction handed back carries the same field values ([recovered_tx] of [norm t]:
+      nil integers come back as 0, nil data as empty), the payload handed back is the signing preimage,
+      and the address is what SignatureData.RecoverDirect (a parameter; property C05) returns for the
+      very (V, R, S) the signer answered over the hash of that preimage — V as 27/28 in the legacy
+      formats, as the bare parity in type 0x02.  Guards: the Go type invariant of the destination
+      (20 bytes), a chain id below 2^61 (so that the decoder's int64 arithmetic on V is exact; the
+      property asks for <= 2^53), and signed bytes no longer than the 2^31-1 the RLP decoder accepts. *)
+Theorem C01_recover_sign :
+  forall (H : bytes -> bytes) (RecoverDirect : sigdata -> bytes -> Z -> res bytes)
+         (m : mode) (t : tx) (f : signer) (chain : Z) (v r s : Z) (out : bytes),
+  to_ok t = true -> chain_ok chain ->
+  f (sp_data (payload_of m t chain)) = Ok (v, r, s) -> v_legacy v -> (0 <= r)%Z -> (0 <= s)%Z ->
+  sign_mode m t (Some f) chain = Ok out ->
+  (N.of_nat (length out) <= maxInt32)%N ->
+  let fm := format_of m t in
+  let pre := sp_data (payload_of m t chain) in
+  RecoverRawTransaction H RecoverDirect out chain =
+    do a <- RecoverDirect (v_seen fm v, r, s) (H pre) chain;
+    Ok (a, recovered_tx fm (norm t), pre).
+Proof. exact recover_sign. Qed.
+Print Assumptions C01_recover_sign.
+
+(* 5. The same with the KeyPair signer (Keccak, then SignDirect), under the two laws of
+      SignDirect / RecoverDirect that property C05 is about: recovering returns the key's address. *)
+Theorem C01_recover_sign_keypair :
+  forall (H : bytes -> bytes) (sign_direct : N -> bytes -> res sigdata)
+         (RecoverDirect : sigdata -> bytes -> Z -> res bytes) (addr_of : N -> bytes),
+  (forall d z v r s, sign_direct d z = Ok (v, r, s) -> (0 <= r)%Z /\ (0 <= s)%Z) ->
+  (forall d z v r s chain, sign_direct d z = Ok (v, r, s) -> v_legacy v ->
+     RecoverDirect (v, r, s) z chain = Ok (addr_of d) /\
+     RecoverDirect ((v - 27)%Z, r, s) z chain = Ok (addr_of d)) ->
+  forall (m : mode) (t : tx) (d : N) (chain : Z) (out : bytes),
+  to_ok t = true -> chain_ok chain ->
+  sign_mode m t (Some (KeyPairSign H sign_direct d)) chain = Ok out ->
+  (N.of_nat (length out) <= maxInt32)%N ->
+  let pre := sp_data (payload_of m t chain) in
+  exists v r s, sign_direct d (H pre) = Ok (v, r, s) /\
+    (v_legacy v ->
+     RecoverRawTransaction H RecoverDirect out chain
+     = Ok (addr_of d, recovered_tx (format_of m t) (norm t), pre)).
+Proof. exact recover_sign_keypair. Qed.
+Print Assumptions C01_recover_sign_keypair.
+
+(* the field tuple that comes back is the one that went in *)
+Theorem C01_recovered_fields :
+  forall t : tx,
+  let f := norm t in
+  (f_nonce (norm (recovered_tx Original f)) = f_nonce f /\ f_gasPrice (norm (recovered_tx Original f)) = f_gasPrice f /\
+   f_gasLimit (norm (recovered_tx Original f)) = f_gasLimit f /\ f_to (norm (recovered_tx Original f)) = f_to f /\
+   f_value (norm (recovered_tx Original f)) = f_value f /\ f_data (norm (recovered_tx Original f)) = f_data f) /\
+  recovered_tx Eip155 f = recovered_tx Original f /\
+  (f_nonce (norm (recovered_tx Eip1559 f)) = f_nonce f /\ f_maxPrio (norm (recovered_tx Eip1559 f)) = f_maxPrio f /\
+   f_maxFee (norm (recovered_tx Eip1559 f)) = f_maxFee f /\
+   f_gasLimit (norm (recovered_tx Eip1559 f)) = f_gasLimit f /\ f_to (norm (recovered_tx Eip1559 f)) = f_to f /\
+   f_value (norm (recovered_tx Eip1559 f)) = f_value f /\ f_data (norm (recovered_tx Eip1559 f)) = f_data f).
+Proof.
+  intros t. split; [apply norm_recovered_legacy|]. split; [reflexivity|apply norm_recovered_1559].
+Qed.
+Print Assumptions C01_recovered_fields.
+
 (* non-vacuity: an EIP-155 transfer on chain 2^53 with a constant signer meets every hypothesis of
    theorem 1, and the result is the 9-element list with V = 2^54 + 35 + 1 *)
 Example C01_nonvacuous :
@@ -79,5 +141,25 @@ Example C01_nonvacuous :
 Proof.
   cbv zeta. split; [unfold short; vm_compute; reflexivity|]. split; [reflexivity|].
   eexists. split; [vm_compute; reflexivity|]. split; [unfold short; vm_compute; reflexivity|].
+  vm_compute. reflexivity.
+Qed.
+
+(* non-vacuity of theorems 4 and 5: a contract creation with nil fields on chain 2^53 in type 0x02;
+   every hypothesis holds and the recovered transaction has nonce 0, empty data, no destination *)
+Example C01_nonvacuous_recover :
+  let t := mkTx None None (Some 1%Z) None (Some 21000%Z) None None None in
+  let sd : N -> bytes -> res sigdata := fun _ _ => Ok (28%Z, 5%Z, 6%Z) in
+  let RD : sigdata -> bytes -> Z -> res bytes := fun _ _ _ => Ok (repeat x11 20) in
+  let chain := (2 ^ 53)%Z in
+  to_ok t = true /\ chain_ok chain /\
+  exists out, sign_mode Auto t (Some (KeyPairSign (fun b => b) sd 7%N)) chain = Ok out /\
+    (N.of_nat (length out) <= maxInt32)%N /\
+    RecoverRawTransaction (fun b => b) RD out chain
+    = Ok (repeat x11 20,
+          mkTx (Some 0%Z) None (Some 1%Z) (Some 0%Z) (Some 21000%Z) None (Some 0%Z) (Some []),
+          sp_data (SignaturePayloadEIP1559 t chain)).
+Proof.
+  cbv zeta. split; [reflexivity|]. split; [unfold chain_ok; lia|].
+  eexists. split; [vm_compute; reflexivity|]. split; [vm_compute; discriminate|].
   vm_compute. reflexivity.
 Qed.
